@@ -91,6 +91,18 @@ fn main() {
                 }
             }
         }
+        "rerun" => {
+            // marsim rerun <ID> <run> [seed]: one run of a batch, for debugging
+            let id = args.get(2).cloned().unwrap_or_else(|| usage());
+            let run: u64 = args.get(3).and_then(|s| s.parse().ok()).unwrap_or_else(|| usage());
+            let seed: u64 = args.get(4).and_then(|s| s.parse().ok()).unwrap_or(1);
+            marsim::report::set_minimise(false);
+            let def = marsim::props::registry().into_iter().find(|d| d.id == id).unwrap_or_else(|| usage());
+            match def.rerun.and_then(|f| f(Tier::Quick, seed, run)) {
+                Some(v) => println!("violation: {} / {}\n{}", v.oracle, v.signature, v.detail),
+                None => println!("clean (or the property has no rerun)"),
+            }
+        }
         "c19-survey" => {
             marsim::props::c19::survey();
         }
